@@ -3,7 +3,7 @@
    Model: C08/Model.v ([reorder M t] with t the lookup table "old index at each new position",
    [reorder_by_names] the public entry point).  [reordered], [class_rel], [field_rel], [meth_rel],
    [param_rel] (C08/Theory.v) and [keys_good] (C08/TheoryA.v) are the declarative description. *)
-From FB Require Import C08.Model C08.TheoryA C08.TheoryB C08.Theory C08.Theory2 C08.Theory3.
+From FB Require Import C08.Model C08.TheoryA C08.TheoryB C08.Theory C08.Theory2 C08.Theory3 C08.Theory4.
 From Coq Require Import Permutation.
 
 (* Th 1. reorder succeeds with M' exactly when M' has the namespace row permuted, the same
@@ -107,6 +107,90 @@ Theorem C08_reorder_table_perm : forall M nms,
             /\ permute [] t (ms_ns M) = nms.
 Proof. exact reorder_table_perm. Qed.
 Print Assumptions C08_reorder_table_perm.
+
+(* Th 3'. THE ACTION LAW.  [compose p q] = the table whose position j holds p[q[j]].  Reordering by p
+   and then reordering the result by q IS reordering the original by [compose p q] - success and
+   failure of the second step included - for every well-formed set, every first table p (the first
+   step is assumed to succeed), every second table q with entries below [length p] (not even a
+   permutation), under the hypotheses of the inverse law.  Identity (Th 2) and inverse (Th 3) are the
+   instances q = seq 0 n and q = inv_perm p (C08_compose_laws).  The law fixes the DIRECTION of the
+   table: a table built the other way round passes identity, inverse and every involution, and fails
+   this law on two non-commuting orders of three namespaces (C08_compose_example). *)
+Theorem C08_reorder_compose : forall M p q M1,
+  wf M = true -> in_range (length p) q = true ->
+  no_collision M (hd O p) = true -> class_names_clean M = true ->
+  reorder M p = Ok M1 ->
+  forall M2, reorder M1 q = Ok M2 <-> reorder M (compose p q) = Ok M2.
+Proof. exact reorder_compose. Qed.
+Print Assumptions C08_reorder_compose.
+
+Theorem C08_reorder_compose_eq : forall M p q M1,
+  wf M = true -> in_range (length p) q = true ->
+  no_collision M (hd O p) = true -> class_names_clean M = true ->
+  reorder M p = Ok M1 -> reorder M1 q = reorder M (compose p q).
+Proof. exact reorder_compose_eq. Qed.
+Print Assumptions C08_reorder_compose_eq.
+
+(* through the public entry point: after reordering to any order of the namespaces, reordering the
+   result to a further list of names (any list: an order, a list with repetitions or unknown names)
+   gives exactly what reordering the original to that list gives - the path does not matter *)
+Theorem C08_reorder_by_names_compose : forall M nms M1,
+  wf M = true -> nodup_ns M = true -> Permutation nms (ms_ns M) ->
+  no_collision_names M nms = true -> class_names_clean M = true ->
+  reorder_by_names M nms = Ok M1 ->
+  forall nms2, reorder_by_names M1 nms2 = reorder_by_names M nms2.
+Proof. exact reorder_by_names_compose. Qed.
+Print Assumptions C08_reorder_by_names_compose.
+
+(* what [compose] is: rows compose; the identity table is neutral; the inverse table composes to the identity *)
+Theorem C08_compose_laws :
+  (forall (d : option str) p q l, in_range (length p) q = true -> permute d q (permute d p l) = permute d (compose p q) l)
+  /\ (forall n q, in_range n q = true -> compose (seq 0 n) q = q)
+  /\ (forall p, compose p (seq 0 (length p)) = p)
+  /\ (forall n p, is_permb n p = true -> compose p (inv_perm p) = seq 0 n)
+  /\ (forall n p, is_permb n p = true -> in_range n p = true).
+Proof.
+  exact (conj (fun d p q l => permute_compose d p q l)
+        (conj compose_id_l (conj compose_id_r (conj compose_inv is_permb_in_range)))).
+Qed.
+Print Assumptions C08_compose_laws.
+
+Theorem C08_compose_example : compose_example.
+Proof. exact compose_example_holds. Qed.
+Print Assumptions C08_compose_example.
+
+(* Th 1, spelled out without the vocabulary of Theory.v: the header is permuted by the table (by
+   names: it is the list of names asked for), the comment of the set is untouched; the k-th class
+   stays the k-th class (fields, methods, parameters likewise), comments and parameter indices
+   untouched, and the name at NEW position i is the name in OLD column t[i] *)
+Theorem C08_reorder_header : forall M t M',
+  reorder M t = Ok M' ->
+  ms_ns M' = map (fun i => nth i (ms_ns M) []) t /\ ms_doc M' = ms_doc M.
+Proof. exact reorder_header. Qed.
+Print Assumptions C08_reorder_header.
+
+Theorem C08_reorder_by_names_header : forall M nms M',
+  reorder_by_names M nms = Ok M' -> ms_ns M' = nms /\ ms_doc M' = ms_doc M.
+Proof. exact reorder_by_names_header. Qed.
+Print Assumptions C08_reorder_by_names_header.
+
+Theorem C08_reorder_direction : forall M t M',
+  reorder M t = Ok M' ->
+  forall k c, nth_error (ms_classes M) k = Some c ->
+  exists c', nth_error (ms_classes M') k = Some c'
+    /\ c_doc c' = c_doc c
+    /\ (forall i, (i < length t)%nat -> nth_name (c_names c') i = nth_name (c_names c) (nth i t O))
+    /\ (forall j f, nth_error (c_fields c) j = Some f -> exists f', nth_error (c_fields c') j = Some f'
+          /\ f_doc f' = f_doc f
+          /\ forall i, (i < length t)%nat -> nth_name (f_names f') i = nth_name (f_names f) (nth i t O))
+    /\ (forall j m, nth_error (c_methods c) j = Some m -> exists m', nth_error (c_methods c') j = Some m'
+          /\ m_doc m' = m_doc m
+          /\ (forall i, (i < length t)%nat -> nth_name (m_names m') i = nth_name (m_names m) (nth i t O))
+          /\ forall l x, nth_error (m_params m) l = Some x -> exists x', nth_error (m_params m') l = Some x'
+               /\ p_index x' = p_index x /\ p_doc x' = p_doc x
+               /\ forall i, (i < length t)%nat -> nth_name (p_names x') i = nth_name (p_names x) (nth i t O)).
+Proof. exact reorder_direction. Qed.
+Print Assumptions C08_reorder_direction.
 
 (* Th 4. a class, field or method without a name in the new first namespace makes reorder fail
    (no hypothesis at all); parameters are keyed by index and are not concerned *)
